@@ -231,6 +231,11 @@ func genWireCase(t *rapid.T, allowID15 bool) *WireCase {
 			c.ID15Tail = genBytesN(t, "id15tail", rapid.IntRange(0, 12).Draw(t, "id15taillen"))
 		}
 	}
+	if allowID15 && (m.ExtKind == "onebyte" || m.ExtKind == "twobyte") && len(m.Exts) >= 2 && len(m.Exts) <= 40 && rapid.IntRange(0, 5).Draw(t, "dupid") == 0 {
+		// the grammar does not forbid an id to occur twice in a block: both elements are decoded, in wire order
+		j := rapid.IntRange(1, len(m.Exts)-1).Draw(t, "dupat")
+		m.Exts[j].ID = m.Exts[rapid.IntRange(0, j-1).Draw(t, "dupof")].ID
+	}
 	if m.PaddingSize > 0 && genBool(t, "padfill") {
 		c.PadFill = genBytesN(t, "padfillbytes", rapid.IntRange(1, 4).Draw(t, "padfilllen"))
 	}
